@@ -198,6 +198,10 @@ def r_c11_conv(ctx, rep):
         n += 1
         key = "%s|R-DATE-COMP" % fn.name
         ctors = [c for c in walk_k(fn.body, "Call", "MethodCall") if (callee(c) or "").rsplit("::", 1)[-1] in NUMERIC_CTORS and "chrono" in (callee(c) or "")]
+        # ... nor from a serial of their own making (`ExcelDateTime::new(dt.value.floor(), ..).as_datetime()`): the date of a
+        # cell is the date of *its* as_datetime(), which rounds to the millisecond and can carry into the next day
+        ctors += [c for c in walk_k(fn.body, "Call") if (callee(c) or "").endswith("ExcelDateTime::new")]
+        ctors += [c for c in walk_k(fn.body, "MethodCall") if c.get("name") in ("floor", "ceil", "round", "trunc", "fract") and "f64" in ((peel(c["recv"]) or {}).get("ty") or "")]
         dtc = [c for c in walk_k(fn.body, "MethodCall") if c.get("name") == "as_datetime"]
         if ctors:
             rep.violation("R-DATE-COMP", key, loc(ctors[0]), "%s builds its result with `%s` instead of taking the component of as_datetime(): rounding carries into the next day and out-of-range serials are handled differently from as_datetime" % (fn.name, callee(ctors[0])))
